@@ -913,10 +913,13 @@ func (p *balloons) deleteBalloon(bln *Balloon) {
 	}
 	p.balloons = remainingBalloons
 	p.forgetCpuClass(bln)
+	freedCpus := bln.Cpus.Clone()
 	p.freeCpus = p.freeCpus.Union(bln.Cpus)
 	if _, err := p.cpuAllocator.ReleaseCpus(&bln.Cpus, bln.Cpus.Size(), bln.Def.AllocatorPriority.Value().Option()); err != nil {
 		log.Warnf("failed to release CPUs %q of balloon %s[%d]: %v", bln.Cpus, bln.Def.Name, bln.Instance, err)
 	}
+	// Reshare idle CPUs because CPUs of the deleted balloon are idle again.
+	p.updatePinning(p.shareIdleCpus(freedCpus, cpuset.New())...)
 }
 
 // freeBalloon clears a balloon and deletes it if allowed.
